@@ -57,6 +57,23 @@ func c13Stmt(w *world, kind string) stmt {
 		// the first row is accepted and changes a page, the second one is over the size limit
 		n := w.model.Tables["t1"].Inserted
 		return stmt{SQL: fmt.Sprintf("INSERT INTO t1 VALUES (%d, 'r%d'), (%d, '%s')", n+1, n+1, n+2, strings.Repeat("L", 420)), Kind: "insert", Table: "t1", MustFail: true, apply: func(*mModel, int) {}}
+	// statements refused before they change anything: the statements after them run like any others
+	case "refused-update-set-from-column":
+		return stmt{SQL: "UPDATE t1 SET c = a", Kind: "refused", Table: "t1", MustFail: true, apply: func(*mModel, int) {}}
+	case "refused-update-unknown-table":
+		return stmt{SQL: "UPDATE nosuch SET c = 'z'", Kind: "refused", Table: "t1", MustFail: true, apply: func(*mModel, int) {}}
+	case "refused-insert-unknown-table":
+		return stmt{SQL: "INSERT INTO nosuch VALUES (1, 'r')", Kind: "refused", Table: "t1", MustFail: true, apply: func(*mModel, int) {}}
+	case "refused-insert-too-few-values":
+		return stmt{SQL: "INSERT INTO t1 VALUES (7)", Kind: "refused", Table: "t1", MustFail: true, apply: func(*mModel, int) {}}
+	case "refused-delete-unknown-column":
+		return stmt{SQL: "DELETE FROM t1 WHERE nosuchcol = 1", Kind: "refused", Table: "t1", MustFail: true, apply: func(*mModel, int) {}}
+	case "refused-select-unknown-table":
+		return stmt{SQL: "SELECT * FROM nosuch", Kind: "refused", Table: "t1", MustFail: true, apply: func(*mModel, int) {}}
+	case "refused-select-unknown-column":
+		return stmt{SQL: "SELECT nosuchcol FROM t1", Kind: "refused", Table: "t1", MustFail: true, apply: func(*mModel, int) {}}
+	case "refused-create-duplicate":
+		return stmt{SQL: "CREATE TABLE t1 (z int)", Kind: "refused", Table: "t1", MustFail: true, apply: func(*mModel, int) {}}
 	case "update":
 		return mkUpdate(w.model, "t1", seqPred{"<=", w.model.Tables["t1"].Inserted / 2})
 	case "delete":
@@ -97,6 +114,16 @@ func runC13(env *lib.Env, rep *lib.Report) {
 		// reach the data file ahead of log records it writes later
 		{"update-refused-at-third-row", "c14:t4k3", []string{"update-refused-at-third-row"}, 2, 0, false, true, false},
 		{"insert-refused-at-second-row", "t1x8", []string{"insert-refused-at-second-row"}, 2, 0, false, true, false},
+		// statements refused before they change anything, then an ordinary statement: whatever the refusal left
+		// behind in the session, the next statement is bracketed like any other
+		{"refused-update-set-from-column;insert1", "t1x8", []string{"refused-update-set-from-column", "insert1"}, 1, 0, false, false, false},
+		{"refused-update-unknown-table;update", "t1x8", []string{"refused-update-unknown-table", "update"}, 1, 0, false, false, false},
+		{"refused-insert-unknown-table;insert1", "t1x8", []string{"refused-insert-unknown-table", "insert1"}, 1, 0, false, false, false},
+		{"refused-insert-too-few-values;delete", "t1x8", []string{"refused-insert-too-few-values", "delete"}, 1, 0, false, false, false},
+		{"refused-delete-unknown-column;insert1", "t1x8", []string{"refused-delete-unknown-column", "insert1"}, 1, 0, false, false, false},
+		{"refused-select-unknown-table;insert1", "t1x8", []string{"refused-select-unknown-table", "insert1"}, 1, 0, false, false, false},
+		{"refused-select-unknown-column;update", "t1x8", []string{"refused-select-unknown-column", "update"}, 1, 0, false, false, false},
+		{"refused-create-duplicate;insert1", "t1x8", []string{"refused-create-duplicate", "insert1"}, 1, 0, false, false, false},
 		// the CREATE TABLE that makes the page table grow a level (its seventh user table)
 		{"create/7th-table", "six-tables", []string{"create"}, 2, 0, false, false, false},
 		// the store opened without log fsync: durability is weaker, the order "log before pages" is not
@@ -184,6 +211,10 @@ func runC13(env *lib.Env, rep *lib.Report) {
 				if s.MustFail {
 					if _, isPanic := err.(*panicErr); isPanic || err == nil {
 						execErr, failedSQL = fmt.Errorf("expected a refusal, got %v", err), s.SQL
+						return
+					}
+					if s.Kind == "refused" {
+						continue // refused before any change: the session goes on
 					}
 					return
 				}
